@@ -758,6 +758,9 @@ class TlsClientCertificateType(enum.IntEnum):
     DSS_SIGN = 0x02
     RSA_FIXED_DH = 0x03
     DSS_FIXED_DH = 0x04
+    RSA_EPHEMERAL_DH = 0x05
+    DSS_EPHEMERAL_DH = 0x06
+    FORTEZZA_DMS = 0x14
     ECDSA_SIGN = 0x40
     RSA_FIXED_ECDH = 0x41
     ECDSA_FIXED_ECDH = 0x42
